@@ -164,4 +164,41 @@ Definition parabolic_max (x : list C) : option (bool * C * C) :=
         Some (false, cadd (parab_ipeak a b c) (natC imax), parab_maxi a b c)
   end.
 
+(* ------------------------------------------------------------------------ *)
+(* waveforms.wave_shift_corrmax(spike, spike2)   (src/ibldsp/waveforms.py)
+     c = scipy.signal.correlate(spike, spike2, mode='same')
+     ipeak, maxi = parabolic_max(c)
+     shift_computed = (ipeak - np.floor(sig_len / 2)) * -1
+     spike_resync = fshift(spike2, -shift_computed)
+
+   scipy.signal.correlate(a, b, 'full')[k] = sum_l a[l + k - (N-1)] b[l]; 'same'
+   keeps N entries starting at (N-1)//2, so entry i has lag i - (N - 1 - (N-1)//2)
+   = i - floor(N/2):  the zero-lag entry is at index floor(N/2) for EVERY N
+   (both parities).  Samples outside 0..N-1 are zero. *)
+Definition xcorr_same_at (N : nat) (a b : nat -> C) (i : nat) : C :=
+  sumn (fun l =>
+          let k := (Z.of_nat l + Z.of_nat i - Z.of_nat (N / 2))%Z in
+          if ((0 <=? k) && (k <? Z.of_nat N))%Z then cmul (a (Z.to_nat k)) (b l) else c0) N.
+
+Definition xcorr_same (a b : list C) : list C :=
+  map (xcorr_same_at (length a) (nthC a) (nthC b)) (seq 0 (length a)).
+
+(* the returned delay: -(ipeak - floor(N/2)); None = the assert on equal lengths /
+   np.argmax of an empty array *)
+Definition corrmax_shift (spike spike2 : list C) : option (bool * C) :=
+  if (length spike =? length spike2)%nat then
+    match parabolic_max (xcorr_same spike spike2) with
+    | Some (edge, ip, _) => Some (edge, copp (csub ip (natC (length spike / 2))))
+    | None => None
+    end
+  else None.
+
+(* for an integer delay m the re-aligned copy fshift(spike2, -m) is np.roll(spike2, -m) *)
+Definition resync_int (m : Z) (spike2 : list C) : list C :=
+  roll_list (length spike2) (- m) spike2.
+
+(* index of the 'same'-mode correlation entry that carries lag d, and back *)
+Definition lag_index (N : nat) (d : Z) : Z := (Z.of_nat (N / 2) + d)%Z.
+Definition int_delay_of_peak (N : nat) (imax : nat) : Z := (Z.of_nat (N / 2) - Z.of_nat imax)%Z.
+
 End Generic.
